@@ -105,6 +105,7 @@ def obs_program(params):
                 w = wid(self.watch)
                 if state["fs"].get(w, 0) > 0:
                     state["fs"][w] -= 1
+                    state["last_fail_w"] = w
                     raise OSError(24, "scripted: emitter cannot be started")
 
             # deterministic set iteration order (sets of emitters / handlers are hashed by id() otherwise); the order
@@ -174,7 +175,8 @@ def obs_program(params):
             except detsched.SchedAbort:
                 raise
             except Exception as e:  # noqa: BLE001
-                s.log("ret", op=op, ok=False, exc=type(e).__name__)
+                # fw: the watch whose emitter the harness made fail to start during this call (0: none)
+                s.log("ret", op=op, ok=False, exc=type(e).__name__, fw=state.pop("last_fail_w", 0) if isinstance(e, OSError) else 0)
                 return False
             s.log("ret", op=op, ok=True)
             return True
